@@ -10,7 +10,7 @@ SPEC = {
     'explanation': "Deductive: the score of a non-emitting step never exceeds its predecessor's (monotone), upsert keeps the better of stored entry and candidate. Bounded: non-emitting states off vs on, same everything else (first-order models, no pruning).",
     'assumptions': ['dominance induction (composition) is manual'],
     'deductive': [
-        ('K-next(monotone score; a candidate inherits the round of its predecessor, so what is derived from a non-emitting state is expanded in the same round)', 'next', '^(score:(monotone|non-emitting)|fields:delayed)'),
+        ('K-next(monotone score; a candidate inherits the round of its predecessor, so what is derived from a non-emitting state is expanded in the same round; the cut-off verdict is a function of the normalised score and the distance only - nothing path dependent that the keep-the-better merge could lose)', 'next', '^(score:(monotone|non-emitting)|fields:delayed|stop:|cutoff:)'),
         ('K-upsert(keeps the better)', 'upsert', '^upsert:present'),
         ("_match_non_emitting_states_end(next column written only through keep-the-better upsert; worse candidates dropped)", 'ne_end', r'^ne-end:'),
         ("match(per observation: emitting expansion first and unconditional, non-emitting search after it iff enabled)", 'match', r'^loop:(emitting-expansion|non-emitting-search)'),
